@@ -453,6 +453,63 @@ func runLengthCheck(t *testing.T, p harness.Plan) {
 	harness.SetExhaustive(name, fmt.Sprintf("%d units x %d templates x run lengths 1..%d (quick: 1..40 and around 64, 128, 256, 512, 999, 1024), runs longer than 3000 bytes skipped", len(runUnits), len(runTemplates), ls[len(ls)-1]))
 }
 
+// bigUnits do not nest, so a run of tens of thousands of them stays cheap; the
+// lengths cross the sizes at which fixed buffers, chunked reads and narrow
+// counters would end (a label buffer of four bytes per character, a 4 KiB or
+// 8 KiB scratch array, a 16-bit length).
+var bigUnits = []string{"a", "é", " ", "9", "\x00", "\xff", ";", ":", "\"", "'", "=", "~", "+", "&", "#", ")", "!", "`", "a b ", "\t"}
+
+func bigLengths(quick bool) []int {
+	if quick {
+		return []int{2048, 4097, 8193, 20000}
+	}
+	var ls []int
+	for _, c := range []int{2048, 4096, 8192, 16384, 32768, 65536} {
+		ls = append(ls, c-1, c, c+1)
+	}
+	return append(ls, 1500, 3000, 3995, 3996, 3997, 4000, 5000, 10000, 20000, 40000, 100000)
+}
+
+func bigRunCheck(t *testing.T, p harness.Plan) {
+	const name = "long_interiors"
+	cfg := harness.Cfg()
+	shards := 1
+	if cfg.Tier == "thorough" {
+		shards = 16
+	}
+	ls := bigLengths(cfg.Tier != "thorough")
+	idx := 0
+	for ui, u := range bigUnits {
+		for ti, tf := range runTemplates {
+			for _, l := range ls {
+				idx++
+				if idx%shards != cfg.Shard%shards {
+					continue
+				}
+				c := harness.Case{In: []byte(tf(strings.Repeat(u, l/len(u))))}
+				c.SetI("light", 1)
+				harness.NoteInflight("C04", name, &c)
+				res := safePropLocal(c)
+				harness.Count(name, &c, true, fmt.Sprintf("unit_%d", ui), fmt.Sprintf("template_%d", ti))
+				if res.Err != nil {
+					if harness.Fail(t, p, name, c, res.Err) {
+						return
+					}
+				}
+			}
+		}
+	}
+	harness.SetExhaustive(name, fmt.Sprintf("%d non-nesting units x %d templates x %d lengths from 1500 to %d bytes", len(bigUnits), len(runTemplates), len(ls), ls[len(ls)-1]))
+}
+
+func edgeCheck(t *testing.T, p harness.Plan) {
+	harness.EnumerateInputs(t, p, "edge_documents", gen.EdgeDocs(), func(i int, in []byte) harness.Case {
+		c := harness.Case{In: in}
+		c.SetI("light", 1)
+		return c
+	}, safePropLocal)
+}
+
 func safePropLocal(c harness.Case) (r harness.Result) {
 	defer func() {
 		if p := recover(); p != nil {
@@ -469,13 +526,23 @@ func plan() harness.Plan {
 		{Name: "pipeline", Quick: 40000, Thorough: 600000, Gen: genDoc, Prop: prop, Rule: "G1/G2/G3 inputs: " + rule},
 		{Name: "long", Quick: 60, Thorough: 600, Gen: genLong, Prop: prop, Rule: "G1 long mode 2-16 KB: " + rule},
 		{Name: "run_lengths", Prop: prop, Rule: "enumerated: a run of one unit (37 units: every markdown-significant character, white space, NUL, invalid UTF-8, short openers) at every length in 14 templates (bare, in text, quoted, in a list item, heading, link text and destination, fence info and content, tag attribute, two lines, definition destination, label, code span); a diagonal of the renderer configurations"},
+		{Name: "long_interiors", Prop: prop, Rule: "enumerated: a run of 2048, 4097, 8193 and 20000 bytes (thorough: 29 lengths from 1500 to 100000, around every power of two) of one of 20 units that neither nest nor make the library's inline scan quadratic (runs of ']' and of backslashes do: 5000 of them take a second, which is slow, not a violation), inside each of the 14 templates (text, label, destination, title-less definition, link text, info string, code span, attribute, heading): constructs with very long interiors; a diagonal of the renderer configurations"},
+		{Name: "edge_documents", Prop: prop, Rule: "enumerated: gen.EdgeDocs (every special line as the last line of every open context) and gen.TruncDocs (60 complete constructs cut after every byte, as the last bytes of a document, a heading, a quote, a list item and an enclosing inline construct, with LF, CRLF and CR): unterminated constructs at the end of input; a diagonal of the renderer configurations"},
 		{Name: "nesting", Quick: 60, Thorough: 600, Gen: genNest, Prop: prop, Rule: "200-12000 repetitions of one opener (<= 12 KB; the library is quadratic to cubic in nesting depth, so sizes are bounded to keep the watchdog two orders of magnitude above the slowest case): " + rule},
 	}}
 }
 
 func TestProperty(t *testing.T) {
 	p := plan()
-	p.After = func(t *testing.T) { runLengthCheck(t, p) }
+	p.After = func(t *testing.T) {
+		runLengthCheck(t, p)
+		if !t.Failed() {
+			bigRunCheck(t, p)
+		}
+		if !t.Failed() {
+			edgeCheck(t, p)
+		}
+	}
 	harness.Run(t, p)
 }
 
